@@ -32,17 +32,52 @@ def containers(prog, cls):
     """(instance field, target field) as returned by get_data()."""
     s = prog.summarise(cls, "get_data")
     r = s.ret
+
+    def bases(pair):
+        out = []
+        for part in pair[1]:
+            base = part
+            while base[0] == "new" and base[2] in ("list", "copy", "tuple", "deepcopy") and base[3]:
+                base = base[3][0]
+            if base[0] == "fn" and base[1] in ("tuple",) and base[2]:
+                base = base[2][0]
+            out.append(base)
+        return out
+    if r[0] == "gate":
+        # different calls return different things: a view that is kept and handed out again while some validity
+        # test holds (a cache) is not the current content whenever the test misses a change
+        from .algebra import arms
+        from ..report import Refuted
+        views = []
+        for facts, v in arms(r):
+            while v[0] in ("attr", "sub", "tget") and v[1][0] != "tuple":
+                v = v[1]                                  # parts of a stored object
+            views.append((facts, v))
+        stored = [(facts, v) for facts, v in views if v[0] in ("field0", "res") or
+                  (v[0] == "tuple" and any(b[0] == "field0" and ("sub", b, ("const", 0)) != b and
+                                           not _is_container(prog, cls, b) for b in bases(v)))]
+        if stored:
+            facts, v = stored[0]
+            cond = " & ".join(ir.show_nl(f)[:80] for f in facts) or "some calls"
+            raise Refuted("OBS", f"{cls.name}.get_data", f"{s.path}:{s.fn.lineno}", f"{cls.name}.get_data",
+                          f"get_data returns stored {ir.show_nl(v)[:80]} when {cond}",
+                          f"get_data must expose the current instance and target containers on every call; under [{cond}] "
+                          f"it returns {ir.show_nl(v)[:120]}, a view stored earlier -- an in-place replacement that the "
+                          f"validity test does not see (same length) leaves it stale")
     if r[0] != "tuple" or len(r[1]) != 2:
         raise AnalysisError(f"{cls.name}.get_data does not return an (instances, targets) pair: {ir.show_nl(r)}")
-    fields = []
-    for part in r[1]:
-        base = part
-        while base[0] == "new" and base[2] in ("list", "copy", "tuple", "deepcopy") and base[3]:
-            base = base[3][0]
-        if base[0] == "fn" and base[1] in ("tuple",) and base[2]:
-            base = base[2][0]
-        fields.append(base)
-    return s, fields
+    return s, bases(r)
+
+
+def _is_container(prog, cls, field_term):
+    """Is the field one the constructor chain initialises as an empty list / deque?"""
+    try:
+        init = prog.summarise(cls, "__init__")
+    except ir.Unsupported:
+        return True
+    v = init.fields.get(field_term[1])
+    return v is not None and ((v[0] == "new" and v[2] in ("list", "deque", "collections.deque")) or
+                              (v[0] == "res" and v[2].endswith("deque")))
 
 
 def update_params(prog, cls):
@@ -137,16 +172,32 @@ def arrivals_counter(prog, cls, summary, path_list):
             st = [e for e in p.events if isinstance(e, ir.Store) and e.field == f]
             if len(st) != 1 or st[0].value != ("op", "+", ("field0", f), ("const", 1)):
                 ok = False
-        # no other method writes it
+        # no other method writes it (helpers that update() calls are part of update: their writes are in the paths)
+        helpers = {ev.fn.name for ev, _ in walk(summary.events, structural=True) if isinstance(ev, ir.Inlined)}
         for c in prog.mro(cls):
             for name, fn in c.methods.items():
-                if name in ("__init__", "update"):
+                if name in ("__init__", "update") or name in helpers:
                     continue
                 for n in ast.walk(fn):
                     if isinstance(n, ast.Attribute) and isinstance(n.ctx, ast.Store) and n.attr == f:
                         ok = False
         if ok:
             return f
+    return None
+
+
+def partial_counter(prog, cls, summary, path_list):
+    """A field initialised to 0 that update increments by one on some paths but leaves alone on others (an arrival
+    counter that misses arrivals); returns (field, guards of an uncounted path) or None."""
+    init = prog.summarise(cls, "__init__")
+    for f, t0 in init.fields.items():
+        if t0 != ("const", 0):
+            continue
+        counted = [p for p in path_list if any(isinstance(e, ir.Store) and e.field == f and
+                                               e.value == ("op", "+", ("field0", f), ("const", 1)) for e in p.events)]
+        missed = [p for p in path_list if not any(isinstance(e, ir.Store) and e.field == f for e in p.events)]
+        if counted and missed:
+            return f, missed[0].guards
     return None
 
 
